@@ -401,6 +401,7 @@ def t10_magic(run, fx, floors=True):
 def check(run, fx, tier, floors=True):
     import speclayout
     speclayout.rule_layouts(run, fx, "T10-LAYOUT", ["container", "woff2"], floors)
+    speclayout.rule_records(run, fx, "T10-REC", ['container'], floors)
     t10_idx(run, fx, floors)
     t10_find(run, fx, floors)
     t10_sib(run, fx, floors)
